@@ -36,6 +36,25 @@ def run(tier):
     beh = beh[: (240 if quick else 4000)]
     if len(beh) < 50:
         raise ToolError("too few behaviours %d" % len(beh))
+    # thin cases from the COMPLETE graph of a tiny model (1 key, 2 contents, 1 subscriber, 2 long polls, 4 steps): a client
+    # registers, its registration ends (remove / un-listen / connection close / answer) and it registers AGAIN; the last step
+    # is a change that must be reported.  A few per shape (sequence of operation kinds), seeded.
+    g = vlib.tlc_mc("MC_ConfigCenter.tla", "GEN_ConfigCenter_rereg4.cfg", name="c10_gen", collect_replay=True, timeout=1200)
+    thin = g.get("replay", [])
+    if len(thin) < 500:
+        raise ToolError("too few thin re-registration behaviours: %d" % len(thin))
+    rnd.shuffle(thin)
+    by_shape = {}
+    for b in thin:
+        by_shape.setdefault(tuple(s["op"] for s in b["steps"]), []).append(b)
+    per = 3 if quick else 40
+    thin_sel = [b for shape in sorted(by_shape) for b in by_shape[shape][:per]]
+    c.cov["thin_rereg_exported"] = len(thin)
+    c.cov["thin_rereg_shapes"] = len(by_shape)
+    c.cov["thin_rereg_replayed"] = len(thin_sel)
+    if ("subscribe", "remove", "subscribe", "publish") not in by_shape:
+        raise ToolError("thin generation lost the shape subscribe / remove / subscribe / publish")
+    beh = beh + thin_sel
     bf = vlib.write_ndjson(os.path.join(sc, "beh.ndjson"), beh)
     res = vlib.harness(["replay", "cfgcenter", bf, "--shards", 14], timeout=6000)
     vlib.replay_results(c, beh, res, keyfn, "ConfigActor notifications",
@@ -48,13 +67,15 @@ def run(tier):
         "SetTmpValue and full-value import change content without notification by design; outside this property",
     ]
     # ---- front door: the same specification replayed through the real HTTP routes and gRPC services of a node
-    front_common.run_front(c, sc, quick, own_c10=True)
+    front_common.run_front(c, sc, quick, own_c10=True, extra=thin_sel)
     shutil.rmtree(sc, ignore_errors=True)
     return c.finish(
         rule="behaviours = TLC simulation of ConfigCenter.tla with listeners (up to 4 long polls over key subsets with "
              "held md5s and short/long time-outs, 2 subscribers), behaviours with time-outs first; replayed on a real "
              "ConfigActor: after EVERY step each long poll's receiver is checked (answered with exactly the changed keys / "
              "still pending), the emitted NotifyConfig events and the set of pending listeners are compared with the spec; "
+             "plus thin cases from the complete graph of a tiny model (a client registers again after its registration ended, then "
+             "the key changes), a few per shape; "
              "non-trivial = at least one long poll was registered (not answered at once)",
         checker_cmd="tools/vcheck C10 --tier %s" % tier)
 
